@@ -523,7 +523,7 @@ func (interp *Interpreter) EvalPath(path string) (res reflect.Value, err error) 
 
 func (interp *Interpreter) evalPath(path string) (res reflect.Value, err error) {
 	if !isFile(interp.opt.filesystem, path) {
-		_, err := interp.importSrc(mainID, path, NoTest)
+		_, _, err := interp.importSrc(mainID, path, NoTest)
 		return res, err
 	}
 
@@ -563,7 +563,7 @@ func (interp *Interpreter) EvalPathWithContext(ctx context.Context, path string)
 // The main function, test functions and benchmark functions are internally compiled but not
 // executed. Test functions can be retrieved using the Symbol() method.
 func (interp *Interpreter) EvalTest(path string) error {
-	_, err := interp.importSrc(mainID, path, Test)
+	_, _, err := interp.importSrc(mainID, path, Test)
 	return err
 }
 
